@@ -19,7 +19,7 @@ RULE = ("Documents with one doc string (in a feature/rule background, scenario, 
         "Distinct = hash of the source.")
 ASSUMPTIONS = ["content lines never start (after their own indentation) with the active delimiter — that would close the doc string by definition",
                "expected content: opening indentation removed; a less-indented line loses all of its own; only the escaped form of the active delimiter is unescaped"]
-DECIDING = ["docstrings_compared", "opacity_calls_observed", "continuations_compared"]
+DECIDING = ["docstrings_compared", "opacity_calls_observed", "continuations_compared", "interleaved_parses", "markdown_docstring_probes"]
 
 NEXT = ["none", "step", "table_is_not_allowed_text", "scenario", "tagged_scenario", "examples", "tagged_examples", "rule", "comment_blank_step", "another_docstring_step"]
 PLACES = ["scenario", "background", "outline", "rule_scenario", "rule_background"]
@@ -235,10 +235,62 @@ def check_case(seed, i, M, env=None):
 
 def plan(tier, seed):
     q = tier == "quick"
-    return shards("docs", 5000 if q else 200000, 300 if q else 5000, seed)
+    return shards("docs", 5000 if q else 200000, 300 if q else 5000, seed) + shards("interleaved", 60 if q else 3000, 20 if q else 300, seed) + \
+        [{"family": "markdown", "seed": seed, "n": 1}]
+
+
+def run_interleaved(spec, M):
+    """Documents with doc strings parsed by several Parser objects at the same time (own threads, turns at token fetches, no
+    matcher passed): the delimiter and indentation of one document's open doc string are nobody else's business."""
+    from . import c15
+    names = sorted(dialects.master())
+    for i in range(spec["start"], spec["start"] + spec["n"]):
+        r = rng(spec["seed"], ID, "interleaved", i)
+        texts = [build(r, "en" if r.random() < 0.6 else r.choice(names))[0] for _ in range(r.choice([2, 2, 3]))]
+        solo, runs = c15.interleaved(texts, r, n_schedules=2)
+        M.case(h64(["interleaved", texts]))
+        for res in runs:
+            M.count("interleaved_parses", len(res))
+            if res != solo:
+                k = next(j for j, (a, b) in enumerate(zip(res, solo)) if a != b)
+                M.violation("C13.interleaved", {"what": "a document with doc strings gives another result when other Parser objects parse other documents at the same time",
+                                                "alone": short(solo[k], 240), "interleaved": short(res[k], 240)}, {"kind": "interleaved", "texts": texts})
+                break
+
+
+def run_markdown(M):
+    """The Markdown matcher at line level (it cannot be driven through Parser.parse): while a doc string is open, a line that
+    starts with ANOTHER delimiter is content, only the delimiter that opened it closes it."""
+    from gherkin.token_matcher_markdown import GherkinInMarkdownTokenMatcher
+    from gherkin.token import Token
+    from gherkin.gherkin_line import GherkinLine
+    delims = ['"""', "```", "````"]
+    for d in ("en", "fr", "ja"):
+        for opener in delims:
+            for other in delims:
+                for pad in ("", "  ", "      "):
+                    m = GherkinInMarkdownTokenMatcher(d)
+                    t0 = Token(GherkinLine("  " + opener + "\n", 1), {"line": 1})
+                    M.count("markdown_docstring_probes")
+                    if not m.match_DocStringSeparator(t0):
+                        M.violation("C13.markdown", {"what": "Markdown matcher does not open a doc string at its delimiter", "delimiter": opener}, {"kind": "markdown"})
+                        continue
+                    t1 = Token(GherkinLine(pad + other + " x\n" if other != opener else pad + other + "\n", 2), {"line": 2})
+                    got = bool(m.match_DocStringSeparator(t1))
+                    want = other == opener or (other.startswith(opener) and other != opener and False)
+                    # a longer run of the same character begins with the opener: it closes a doc string opened by the shorter one
+                    if other != opener and other.startswith(opener):
+                        continue
+                    if got != want:
+                        M.violation("C13.markdown", {"what": "Markdown matcher: a line starting with %r %s a doc string opened by %r" % (
+                            other, "closes" if got else "does not close", opener), "dialect": d}, {"kind": "markdown"})
 
 
 def run_shard(spec, M):
+    if spec.get("family") == "interleaved":
+        return run_interleaved(spec, M)
+    if spec.get("family") == "markdown":
+        return run_markdown(M)
     env = ReusedEnv(rng(spec["seed"], ID, "reuse", spec["shard"]))
     env.spec = spec
     for i in range(spec["start"], spec["start"] + spec["n"]):
@@ -246,6 +298,15 @@ def run_shard(spec, M):
 
 
 def replay(case, M):
+    if case["kind"] == "markdown":
+        return run_markdown(M)
+    if case["kind"] == "interleaved":
+        from . import c15
+        import random as _random
+        solo, runs = c15.interleaved(case["texts"], _random.Random(0), n_schedules=20)
+        if any(res != solo for res in runs):
+            M.violation("C13.interleaved", {"what": "a document with doc strings gives another result when other Parser objects parse other documents at the same time"}, case)
+        return
     if case["kind"] == "shard":
         run_shard(case["spec"], M)
     else:
